@@ -279,6 +279,21 @@ def compress_map(E, mask, node=None):
     if key in E.st.ghost:
         return E.st.ghost[key]
     n = mask.n if not isinstance(mask.n, int) else z3.IntVal(mask.n)
+    # a mask that provably agrees pointwise with an earlier one selects through the same index map
+    for okey, (omask, on) in list(E.st.ghost.get('cmap_masks', {}).items()):
+        d = z3.Int(fresh_name('d'))
+        try:
+            neg = z3.Or(on != n, z3.And(d >= 0, d < n, zbool(omask(d)) != zbool(E.rd(mask, d))))
+        except Exception:
+            continue
+        E.qf.push()
+        E.qf.add(neg)
+        E.qf.set('timeout', 500)
+        res = E.qf.check()
+        E.qf.pop()
+        if res == z3.unsat:
+            E.st.ghost[key] = E.st.ghost[okey]
+            return E.st.ghost[okey]
     m = z3.Int(fresh_name('cnt'))
     g = z3.Function(fresh_name('g'), z3.IntSort(), z3.IntSort())
     cnt = z3.Function(fresh_name('c'), z3.IntSort(), z3.IntSort())      # cnt(i) = #True in mask[0:i]
@@ -302,6 +317,8 @@ def compress_map(E, mask, node=None):
     for a in ax:
         E.assumptions_quant(a)
     E.st.ghost[key] = (m, g, cnt)
+    src_m, off_m, str_m = E.st.heap[mask.ident], mask.off, mask.stride
+    E.st.ghost.setdefault('cmap_masks', {})[key] = ((lambda i: src_m(off_m + i * str_m)), n)
     E.st.ghost.setdefault('cmap_axioms', {})[key] = ax
     # the same axioms as instantiable schemas (explicit instantiation in proof scripts)
     E.st.ghost.setdefault('cmap_inst', {})[key] = dict(
@@ -497,6 +514,8 @@ def contains(E, container, item, node):
             return p if isinstance(p, bool) else Z(p, BOOL)
         raise Unsupported('symbolic key membership')
     if isinstance(container, dict):
+        return item in container
+    if isinstance(container, str) and isinstance(item, str):
         return item in container
     if isinstance(container, PyList):
         container = container.items
